@@ -164,7 +164,7 @@ impl Channel {
     /// and then [`Exchange::publish`](struct.Exchange.html#method.publish) to avoid this.
     pub fn basic_publish<S: Into<String>>(&self, exchange: S, publish: Publish) -> Result<()> {
         let mut inner = self.inner.borrow_mut();
-        inner.call_nowait(AmqpBasic::Publish(AmqpPublish {
+        inner.call_nowait_with_content(AmqpBasic::Publish(AmqpPublish {
             ticket: 0,
             exchange: exchange.into(),
             routing_key: publish.routing_key,
